@@ -12,4 +12,6 @@ TARGETS = {
     'comutex': dict(cfg='fib', src=['harness/comutex.cpp'], cflags=f'-O1 -g1 {ASAN}', libs='-lrapidcheck'),
     'coro': dict(cfg='fib', src=['harness/coro.cpp'], cflags=f'-O1 -g1 {ASAN}', libs='-lrapidcheck'),
     'coro-nost': dict(cfg='fib-nost', src=['harness/coro.cpp'], cflags=f'-O1 -g1 {ASAN}', libs='-lrapidcheck'),
+    'pipeline': dict(cfg='off', src=['harness/pipeline.cpp'], cflags=f'-O0 -g0 {ASAN}', libs='-lrapidcheck'),
+    'allocbounds': dict(cfg='off', src=['harness/allocbounds.cpp'], cflags=f'-O0 -g0 {ASAN}', libs='-lrapidcheck'),
 }
